@@ -1563,7 +1563,20 @@ def check_addr_reverse(rec, blob):
             rec.violation(f'C17/N2/raises/{type(e).__name__}', f'decode_compact_address({blob[:8].hex()}..) raised {e!r}', {'blob': blob})
         return
     rec.hit('N2.reverse_checked')
-    if port == 0 or len(blob) != 54:
+    if len(blob) != 54:
+        # the decoder accepted bytes that no compact address encodes to.  Round trip in the decode -> make direction: whatever is accepted
+        # must come back as the same bytes, otherwise two different byte strings stand for one peer (lossy; seeded break C17-K dropped
+        # everything after byte 54).  The unchanged tree accepts nothing of another length, so this was a logged-only line before
+        try:
+            again = bytes(make_compact_address(nid, ip, p))
+        except Exception as e:  # noqa
+            again = repr(e)
+        if again != blob:
+            rec.violation('C17/N2/decode-accepts-bytes-that-do-not-reencode/' + ('longer' if len(blob) > 54 else 'shorter'),
+                          f'decode_compact_address accepted {len(blob)} bytes; make(decode(x)) gives {len(again) if isinstance(again, bytes) else again} bytes',
+                          {'blob': blob, 'decoded': [nid, ip, p]})
+        return
+    if port == 0:
         rec.log('N2.decode_accepts_invalid_compact_address')
         return
     if ip != socket.inet_ntoa(blob[:4]) or p != port or nid != blob[6:] or bytes(make_compact_address(nid, ip, p)) != blob:
@@ -1790,7 +1803,7 @@ def execute(rec, case):
                     o = [r.choice([0, 1, 9, 10, 99, 100, 127, 128, 199, 200, 254, 255, r.randrange(256)]) for _ in range(4)]
                 check_addr(rec, r.randbytes(48), '.'.join(map(str, o)), r.choice([1, 255, 256, 1023, 1024, 65535, r.randrange(1, 65536)]))
                 if k % 3 == 0:
-                    blob = r.randbytes(r.choice([54, 54, 54, 54, 53, 55, 6, 0]))
+                    blob = r.randbytes(r.choice([54, 54, 54, 54, 53, 55, 6, 0, 55, 60, 108]))
                     if k % 15 == 0 and len(blob) >= 6:
                         blob = blob[:4] + b'\x00\x00' + blob[6:]
                     check_addr_reverse(rec, blob)
